@@ -11,6 +11,9 @@ use dnssector::{DNSIterable, RdataIterable, TypedIterable};
 use serde_json::json;
 
 pub struct DelCase {
+    /// before the walk: decompress the object through a same-name set_raw_name on the question,
+    /// then rename example.com to itself (which re-compresses the packet)
+    pub prehistory: bool,
     pub msg: Message,
     pub bytes: Vec<u8>,
     pub sec: usize,
@@ -25,6 +28,13 @@ const OPT_MARK: u32 = 0xffff_fff0;
 
 #[allow(clippy::too_many_arguments)]
 pub fn build_del_case(sec: usize, n: usize, mask: u32, opt_pos: usize, delete_opt: bool, incl_opt: bool, compressed: bool, layout_seed: &[u8]) -> DelCase {
+    build_del_case_filler(sec, n, mask, opt_pos, delete_opt, incl_opt, compressed, layout_seed, 0)
+}
+
+/// `filler` > 0: a TXT record of that many data bytes is placed first in the answer section, so that
+/// the walked records sit around offset 16383/16384 (the reach of compression pointers).
+#[allow(clippy::too_many_arguments)]
+pub fn build_del_case_filler(sec: usize, n: usize, mask: u32, opt_pos: usize, delete_opt: bool, incl_opt: bool, compressed: bool, layout_seed: &[u8], filler: usize) -> DelCase {
     use crate::enc::{encode, Layout};
     let names = ["example.com", "www.example.com", "a.b.example.com", "example.org", "mail.example.com", "x.org"];
     let mk = |i: usize, ttl: u32| -> Record {
@@ -45,6 +55,9 @@ pub fn build_del_case(sec: usize, n: usize, mask: u32, opt_pos: usize, delete_op
             m.section_mut(s).push(mk(i + s, ttl));
         }
     }
+    if filler > 0 {
+        m.an.insert(0, Record { owner: Name::from_dotted("filler.example.com"), rtype: T_TXT, class: 1, ttl: 5, rdata: Rdata::Opaque(vec![0xc0; filler]) });
+    }
     // OPT: 0 absent, 1 first, 2 middle, 3 last
     if opt_pos > 0 {
         let mut o = crate::props::read_props::opt_rec();
@@ -64,8 +77,8 @@ pub fn build_del_case(sec: usize, n: usize, mask: u32, opt_pos: usize, delete_op
     };
     let delete: Vec<u32> = (0..n).filter(|i| mask & (1 << i) != 0).map(|i| 1000 + i as u32).collect();
     let delete_opt = delete_opt && opt_pos > 0 && incl_opt && sec == 3;
-    let desc = format!("sec={} n={} delete={:?} opt_pos={} delete_opt={} incl_opt={} compressed={}", sec, n, delete, opt_pos, delete_opt, incl_opt, compressed);
-    DelCase { msg: m, bytes, sec, incl_opt, delete, delete_opt, desc }
+    let desc = format!("sec={} n={} delete={:?} opt_pos={} delete_opt={} incl_opt={} compressed={} filler={}", sec, n, delete, opt_pos, delete_opt, incl_opt, compressed, filler);
+    DelCase { prehistory: false, msg: m, bytes, sec, incl_opt, delete, delete_opt, desc }
 }
 
 pub fn c11_oracle(c: &DelCase, st: &mut Stats) -> PResult {
@@ -74,9 +87,23 @@ pub fn c11_oracle(c: &DelCase, st: &mut Stats) -> PResult {
         Ok(Err(e)) => fail!("HARNESS: C11 packet rejected", "{} {}", e, hex_abbrev(&c.bytes)),
         Err(pm) => fail!(format!("C11 parse-panic {}", panic_sig(&pm)), "{}", pm),
     };
-    let ctxs = || format!("{} packet={}", c.desc, hex_abbrev(&c.bytes));
+    let ctxs = || format!("{} prehistory={} packet={}", c.desc, c.prehistory, hex_abbrev(&c.bytes));
     let opts = refdec::Opts { allow_no_question: true };
     let sec = c.sec;
+    if c.prehistory {
+        let r = catch(|| -> Result<(), String> {
+            let qn = Name::from_dotted("example.com").to_wire();
+            let mut q = pp.into_iter_question().ok_or("no question")?;
+            q.set_raw_name(&qn).map_err(|e| e.to_string())?;
+            pp.rename_with_raw_names(&qn, &qn, true).map_err(|e| e.to_string())
+        });
+        match r {
+            Err(pm) => fail!(format!("C11 prehistory-panic {}", panic_sig(&pm)), "{} {}", pm, ctxs()),
+            Ok(Err(e)) => fail!("C11 prehistory-fails", "{} {}", e, ctxs()),
+            Ok(Ok(())) => {}
+        }
+        st.class("prehistory:decompress-then-rename");
+    }
     if sec == 0 {
         // the question: one record, deleted or not
         let del = !c.delete.is_empty();
@@ -263,7 +290,12 @@ fn c11_case(data: &[u8], st: &mut Stats) -> PResult {
     let incl_opt = sec == 3 && src.chance(128);
     let compressed = src.chance(160);
     let seed = src.bytes(64);
-    let c = build_del_case(sec, n, mask, opt_pos, delete_opt, incl_opt, compressed, &seed);
+    let filler = if sec != 0 && src.chance(40) { src.range(15_900, 16_420) } else { 0 };
+    let mut c = build_del_case_filler(sec, n, mask, opt_pos, delete_opt, incl_opt, compressed, &seed, filler);
+    c.prehistory = sec != 0 && filler == 0 && src.chance(50);
+    if filler > 0 {
+        st.class("around-offset-16384");
+    }
     classify_del(&c, n, st);
     st.class(if compressed { "layout:compressed" } else { "layout:literal" });
     st.class(&format!("opt-pos:{}", opt_pos));
@@ -346,7 +378,7 @@ pub fn check_c11(ctx: &Ctx, known: &KnownFindings) -> Report {
     rep.absorb(r);
     rep.require(&[
         "section:0", "section:1", "section:2", "section:3", "delete:none", "delete:all", "delete:some", "delete:adjacent", "delete:first", "delete:last", "delete:opt", "emptied-section",
-        "layout:compressed", "layout:literal", "exhaustive-subsets",
+        "layout:compressed", "layout:literal", "exhaustive-subsets", "around-offset-16384", "prehistory:decompress-then-rename",
     ]);
     rep
 }
